@@ -102,6 +102,9 @@ func runEngineKept(o opts) error {
 	w := &hx.Writer{Dir: o.out, Prop: o.prop, Imports: "Bytes Errors Consts Codec CacheModel StateModel NavModel RenderModel VmModel EngineModel CorrBase EngineCorr EngineMon EngineKeptCorr",
 		CaseType: "ecase", Mism: "engine_mismatches_kept", Viol: "engine_violations_kept_" + strings.ToLower(o.prop), PerShard: 20}
 	for _, cc := range append(append([]corpusCase{}, keptCorpus...), engineCorpus...) {
+		if cc.heavy {
+			continue
+		}
 		g, inputs := cc.build()
 		c, err := keptCase("corpus:"+cc.name, g, inputs)
 		if err != nil {
